@@ -72,6 +72,7 @@ func cmdConc(args []string) error {
 		// iterations with live bindings on the others
 		`any mi as k, v { v != "zz" and k != "q" }`, `(all im3 as k, v { v.V != 9 }) or (any s as c { c == 1 })`, `(any m3 as k, k { k == 1 }) or (all mi as k, v { k != "q" and v != "zz" })`,
 		`all l as i, v { (any v as j, w { w != 99 and j != 7 }) and i != 9 }`,
+		`any grow.0 as v { v == 7 }`, `any grow.1 as i, v { v == 7 and i != 0 }`, `all grow.2 as v { v != 8 }`, `any grow.3 as v { v == 7 }`, `any grow.4 as _, v { v == 7 }`, `all grow.5 as v { v != 8 }`,
 	}
 	opts := [][]bexpr.Option{nil, {bexpr.WithUnknownValue("unk")}, {bexpr.WithHookFn(run.HookFn("unwrap"))}, {bexpr.WithTagName("json"), bexpr.WithMaxExpressions(1 << 20)}}
 	docs := func() []interface{} {
